@@ -19,14 +19,16 @@ Lemma hard_not_continue e : hard_err e -> e <> TE_continue. Proof. intros [_ H];
 (* the code after out: leaves err alone or sets one of three hard errors; when the final
    status is "continue" nothing was overridden and no value is returned *)
 Lemma finish_call_continue t l t' r :
-  finish_call t l = PR t' r -> err t' = TE_continue -> t' = t /\ r = None.
+  finish_call t l = PR t' r -> err t' = TE_continue ->
+  t' = t /\ r = None /\ (validate_utf8 t = true -> nbytes l = 0).
 Proof.
   unfold finish_call.
-  destruct (validate_utf8 t && negb (nbytes l =? 0));
+  destruct (validate_utf8 t && negb (nbytes l =? 0)) eqn:Ev;
   match goal with |- context [if ?b then set_err ?x TE_unexpected else _] => destruct b end;
   match goal with |- context [if ?b then set_err ?x TE_eof else _] => destruct b end;
   cbn [err set_err]; intros E Hc; try (inversion E; subst; cbn in Hc; discriminate).
-  destruct (err t) eqn:Ee; inversion E; subst; try (cbn in Hc; congruence); auto.
+  destruct (err t) eqn:Ee; inversion E; subst; try (cbn in Hc; congruence).
+  split; [reflexivity|]. split; [reflexivity|]. intros Hv. rewrite Hv in Ev. cbn in Ev. lia.
 Qed.
 
 Lemma finish_call_err t l t' r :
@@ -107,13 +109,13 @@ Qed.
    it left gives the value, status and error code of the single call on [a ++ b], and the
    end position counted from the start of [a] *)
 Theorem chunk_independent t a b ta ra :
-  wf_tok t -> validate_utf8 t = false ->
+  wf_tok t ->
   parse_ex sb t a = PR ta ra -> err ta = TE_continue ->
-  ra = None /\ wf_tok ta /\ validate_utf8 ta = false /\
+  ra = None /\ wf_tok ta /\ validate_utf8 ta = validate_utf8 t /\
   exists tw ts r, parse_ex sb t (a ++ b) = PR tw r /\ parse_ex sb ta b = PR ts r /\
                   err tw = err ts /\ char_offset tw = zlen a + char_offset ts.
 Proof.
-  intros Hwf Hv Ha Hc. unfold parse_ex in Ha.
+  intros Hwf Ha Hc. unfold parse_ex in Ha.
   set (t0 := set_err (set_off t 0) TE_success) in *. set (l0 := mkloc 1 0 JNull None) in *.
   assert (Hw0 : wfs (stack t0) = true) by exact Hwf.
   assert (Hi0 : linv t0 l0) by exact I.
@@ -125,11 +127,13 @@ Proof.
       rewrite He in Hc. destruct Hx as [Hx|Hx]; [congruence|apply (hard_not_continue _ Hx Hc)]. }
   destruct (run_prefix_facts a t0 l0 t1 l1 Hw0 Hi0 RP) as (F1 & F2 & F3 & F4 & F5 & F7 & F6).
   change (err t0) with TE_success in F3. change (char_offset t0) with 0 in F4.
-  change (validate_utf8 t0) with (validate_utf8 t) in F5. specialize (F5 Hv).
-  destruct (finish_call_continue _ _ _ _ Ha Hc) as [-> ->].
+  change (validate_utf8 t0) with (validate_utf8 t) in F5, F7.
+  destruct (finish_call_continue _ _ _ _ Ha Hc) as (-> & -> & Hnb).
   assert (Heoi : end_of_input_err t1 = TE_continue) by exact Hc.
-  assert (Hv1 : validate_utf8 t1 = false) by (rewrite F7; exact Hv).
-  split; [reflexivity|]. split; [exact F1|]. split; [exact Hv1|].
+  assert (Hn0 : nbytes l1 = 0).
+  { cbn [set_err validate_utf8] in Hnb. destruct (validate_utf8 t1) eqn:Ev1; [exact (Hnb eq_refl)|].
+    rewrite F5 by congruence. reflexivity. }
+  split; [reflexivity|]. split; [exact F1|]. split; [exact F7|].
   (* the second call *)
   unfold parse_ex. rewrite Heoi, (resume_tok t1 F3). set (d := - char_offset t1).
   rewrite run_toff.
@@ -137,7 +141,7 @@ Proof.
   fold t0. fold l0. rewrite run_app, RP.
   (* relate the two runs over b *)
   assert (Hl : lsim0 t1 l1 l0).
-  { unfold lsim0. split; [rewrite F5; reflexivity|]. split.
+  { unfold lsim0. split; [rewrite Hn0; reflexivity|]. split.
     - unfold linv in F2. unfold eff. destruct (tstate_eqb (st t1) S_number) eqn:En.
       + destruct (lnum l1); [exact (proj2 F2)|apply nl_eq_refl].
       + destruct (lnum l1); [|split; reflexivity]. destruct F2 as [F2 _]. rewrite F2 in En. discriminate.
@@ -176,18 +180,18 @@ Fixpoint feed (t : tok) (cs : list (list byte)) : option tok :=
 
 (* C03, any number of calls *)
 Theorem chunks_independent pre : forall t tk last,
-  wf_tok t -> validate_utf8 t = false -> feed t pre = Some tk ->
+  wf_tok t -> feed t pre = Some tk ->
   exists tw ts r, parse_ex sb t (concat pre ++ last) = PR tw r /\ parse_ex sb tk last = PR ts r /\
                   err tw = err ts /\ char_offset tw = zlen (concat pre) + char_offset ts.
 Proof.
-  induction pre as [|c pre IH]; intros t tk last Hwf Hv Hf; cbn [feed concat] in *.
+  induction pre as [|c pre IH]; intros t tk last Hwf Hf; cbn [feed concat] in *.
   - inversion Hf; subst. cbn [app zlen]. destruct (parse_total sb tk last Hwf) as (t' & r & E & _).
     exists t', t', r. repeat split; try assumption; lia.
   - destruct (parse_ex sb t c) as [tc rc|] eqn:Ec; [|discriminate].
     destruct (is_continue (err tc)) eqn:Ei; [|discriminate].
     assert (Hc : err tc = TE_continue) by (destruct (err tc); try discriminate; reflexivity).
-    destruct (chunk_independent sb t c (concat pre ++ last) tc rc Hwf Hv Ec Hc) as (_ & Hwc & Hvc & tw & ts & r & A & B & C & D).
-    destruct (IH tc tk last Hwc Hvc Hf) as (tw2 & ts2 & r2 & A2 & B2 & C2 & D2).
+    destruct (chunk_independent sb t c (concat pre ++ last) tc rc Hwf Ec Hc) as (_ & Hwc & _ & tw & ts & r & A & B & C & D).
+    destruct (IH tc tk last Hwc Hf) as (tw2 & ts2 & r2 & A2 & B2 & C2 & D2).
     rewrite B in A2. inversion A2; subst.
     exists tw, ts2, r2. rewrite <- app_assoc. repeat split; try assumption; try congruence.
     rewrite zlen_app. lia.
